@@ -327,6 +327,40 @@ def check_bool_on_strings(t: Tally):
                             note="a boolean decoded from a string field does not carry the bytes of that field as its raw value")
 
 
+def check_empty_fields(t: Tally):
+    """Strings and binaries whose computed length is 0 bits (taken from another parameter, or looked up): the value is empty and the raw value
+    is the empty BYTES object - a raw encoded value all the same."""
+    from space_packet_parser import common
+    from space_packet_parser.packets import CCSDSPacket
+    from space_packet_parser.xtce import comparisons, encodings
+    lk = [comparisons.DiscreteLookup([comparisons.Comparison("0", "N")], 0.0), comparisons.DiscreteLookup([comparisons.Comparison("0", "N", operator=">")], 16.0)]
+    encs = {"string, dynamic length": encodings.StringDataEncoding(dynamic_length_reference="N", use_calibrated_value=False, length_linear_adjuster=lambda x: 8 * x),
+            "string, looked-up length": encodings.StringDataEncoding(discrete_lookup_length=lk),
+            "binary, dynamic length": encodings.BinaryDataEncoding(size_reference_parameter="N", use_calibrated_value=False, linear_adjuster=lambda x: 8 * x),
+            "binary, looked-up length": encodings.BinaryDataEncoding(size_discrete_lookup_list=lk)}
+    for name, enc in encs.items():
+        for nval, data in ((0, b"AB"), (0, b""), (2, b"ABCD")):
+            if nval and "looked-up" not in name and len(data) < nval:
+                continue
+            t.evals += 1
+            t.nontrivial += 1
+            try:
+                pkt = CCSDSPacket(raw_data=data, N=common.IntParameter(nval))
+                v = enc.parse_value(pkt)
+                want_raw = data[:2 * 0] if nval == 0 else data[:2]
+                raw = getattr(v, "raw_value", "<missing>")
+                is_str = name.startswith("string")
+                ok = isinstance(raw, bytes) and bytes(raw) == want_raw and (isinstance(v, str) if is_str else isinstance(v, bytes)) and len(v) == (0 if nval == 0 else 2)
+                if ok and pkt.raw_data.pos != 8 * len(want_raw):
+                    ok = False
+            except Exception as e:  # noqa: BLE001
+                raw, ok = f"raised {type(e).__name__}: {str(e)[:60]}", False
+            if not ok:
+                t.violation({"kind": "raw-value", "class": "str" if name.startswith("string") else "bytes", "parsed": True, "what": "not the encoded value", "encoding": name},
+                            {"empty_fields": True, "encoding": name, "N": nval, "data": data.hex()}, expected=repr(data[:0] if nval == 0 else data[:2]), observed=repr(raw)[:80],
+                            note="a field of computed length 0 (or 16) bits: the raw value is the bytes of the field")
+
+
 def check_values(t: Tally, tier="quick"):
     from space_packet_parser import common
     ints, floats, strs, byts = value_sets(tier)
@@ -694,7 +728,7 @@ def run(ctx):
     if not ctx.quick:
         pnames += [f"mul{i}" for i in range(24)]
     t.merge(fan_out(_task_parsed, [{"kinds": ch, "patterns": pnames} for ch in chunked(list(range(nk)), 4)], jobs=ctx.jobs, seed=ctx.seed))
-    for part in (check_values, check_bool_text, check_bool_on_strings, check_interference, check_packets, check_pairs, check_containers):
+    for part in (check_values, check_bool_text, check_bool_on_strings, check_empty_fields, check_interference, check_packets, check_pairs, check_containers):
         try:
             with case_alarm(1800):
                 if part is check_values:
